@@ -749,7 +749,7 @@ class SSet(Sym):
     __hash__ = object.__hash__
 
     def contains(self, x):
-        return wrap(z3.Select(self.dom, _elem_term(x, self.kind)))
+        return wrap(select(self.dom, _elem_term(x, self.kind)))
 
     def __contains__(self, x):
         return bool(self.contains(x))
@@ -772,7 +772,8 @@ class SSet(Sym):
 
     def isdisjoint(self, o):
         x = z3.Const(fresh_name("x"), self.kind.zsort)
-        return wrap(z3.Not(z3.Exists([x], z3.And(z3.Select(self.dom, x), z3.Select(o.dom, x)))))
+        a, b = sorted((self.dom, o.dom), key=lambda t: t.sexpr())  # canonical order: A∩B and B∩A give the same term
+        return wrap(z3.Not(z3.Exists([x], z3.And(select(a, x), select(b, x)))))
 
     def nonempty_term(self):
         x = z3.Const(fresh_name("x"), self.kind.zsort)
@@ -816,7 +817,7 @@ class SMap(Sym):
         return SMap(self.dom, self.val, self.kkind, self.vkind)
 
     def has(self, k):
-        return wrap(z3.Select(self.dom, _elem_term(k, self.kkind)))
+        return wrap(select(self.dom, _elem_term(k, self.kkind)))
 
     def __contains__(self, k):
         return bool(self.has(k))
@@ -824,10 +825,10 @@ class SMap(Sym):
     def get(self, k, default=None):
         kt = _elem_term(k, self.kkind)
         if default is None:
-            if paths.current().branch(z3.Select(self.dom, kt)):
-                return self.vkind.wrapf(z3.Select(self.val, kt))
+            if paths.current().branch(select(self.dom, kt)):
+                return self.vkind.wrapf(select(self.val, kt))
             return None
-        return self.vkind.wrapf(z3.If(z3.Select(self.dom, kt), z3.Select(self.val, kt), _elem_term(default, self.vkind)))
+        return self.vkind.wrapf(z3.If(select(self.dom, kt), select(self.val, kt), _elem_term(default, self.vkind)))
 
     def __getitem__(self, k):
         kt = _elem_term(k, self.kkind)
@@ -846,6 +847,19 @@ class SMap(Sym):
 
     def keys(self):
         return SSet(self.dom, self.kkind)
+
+    def values(self):
+        x = z3.Const(fresh_name("k"), self.kkind.zsort)
+        return SGen([(x, z3.Select(self.dom, x), self.vkind.wrapf(z3.Select(self.val, x)))])
+
+    def update_where(self, member_of, value_of):
+        """M[x] = value_of(x) for every x with member_of(x) (a loop over a symbolic set, as one array update)."""
+        x = z3.Const(fresh_name("x"), self.kkind.zsort)
+        m = member_of(x)
+        v = value_of(x)  # evaluated against the pre-loop map
+        new_dom = z3.Lambda([x], z3.Or(m, select(self.dom, x)))
+        new_val = z3.Lambda([x], z3.If(m, v, select(self.val, x)))
+        self.dom, self.val = new_dom, new_val
 
     def copy(self):
         return self.snapshot()
@@ -866,20 +880,21 @@ class SMap(Sym):
 
 
 class SGen(Sym):
-    """A generator expression over a symbolic set: {body(x) | x in S, cond(x)} kept as lambda terms.
+    """A bag of values drawn from symbolic sets plus finitely many scalars:
+       { v(x) | x : bound const, member(x) } for each part,  ∪  scalars.
+    Produced by comprehensions over symbolic sets / dict.values(); consumed by max/min/any/all."""
 
-    parts: list of (bound_const, membership_term, value_term)."""
+    __slots__ = ("parts", "scalars")
 
-    __slots__ = ("parts",)
-
-    def __init__(self, parts):
-        self.parts = parts
+    def __init__(self, parts, scalars=()):
+        self.parts = list(parts)
+        self.scalars = list(scalars)
 
     def __iter__(self):
-        raise OutOfReach("native iteration over symbolic generator")
+        raise OutOfReach("native iteration over symbolic bag")
 
     def chain(self, other):
-        return SGen(self.parts + other.parts)
+        return SGen(self.parts + other.parts, self.scalars + other.scalars)
 
 
 def contains_sym(x, depth=0) -> bool:
